@@ -100,9 +100,7 @@ VRef(c) ==
       sok == cb.cfg.key.id # -1 /\ SigOKForge(TokOf(c), cb.cfg.key.kd)
   IN [pt |-> pt, cb |-> cb, sok |-> sok, ref |-> VerifyRef(Ck(c), pt, cb, sok, T0, "openssl")]
 \* the reference generate result rendered as an observed one
-GObs(c) ==
-  LET g == GenRef(Bd(c), T0, Rs(c), "openssl") IN
-  [ret |-> g.ret, talg |-> g.alg, tsiglen |-> IF g.alg = "none" THEN 0 ELSE 64]
+GObs(c) == GenRefG(Bd(c), T0, Rs(c), "openssl")
 
 \* ------------------------------------------------------------ the model
 MCInit == Init /\ cell \in AllCells /\ done = FALSE
